@@ -75,6 +75,7 @@ extern "C" void harness_run()
     sim::notef("%s", s.c_str());
   }
   sim::Config cfg = hx::draw_sched();
+  cfg.max_steps = 2000000;
   w.puts.resize(np);
   w.gets.resize(nc);
   w.q.reset(new BlockingQueue<Item>(w.cap));
@@ -141,7 +142,7 @@ extern "C" void harness_run()
         {
           if (o.kind == 0) break; // blocking dequeue fails only when closed and empty
           if (w.q->isClosed() && w.q->empty()) break;
-          if (o.kind == 2) { std::this_thread::sleep_for(std::chrono::microseconds(200)); if (++idle > 200000) sim::fail("harness", "consumer idle too long"); }
+          if (o.kind == 2) { std::this_thread::sleep_for(std::chrono::microseconds(200)); if (++idle > 20000) sim::fail("bq-no-progress", "a polling consumer saw nothing for 4 simulated seconds while the queue was open: %s | %s", describe_deadlock().c_str(), sim::threads_report().c_str()); }
         }
       }
     });
